@@ -138,7 +138,17 @@ def threading_rules(rep, r2, m):
     padded = r"\(\(%s \+ %s\) - 1\)" % (tot, page)
     # obj_num * obj_sz rounded up to whole pages: ((t + p - 1) / p) * p   or   x - x % p with x = t + p - 1
     pats = [r"\(\(%s / %s\) \* %s\)" % (padded, page, page), r"\(%s - \(%s %% %s\)\)" % (padded, padded, page)]
-    if not any(re.fullmatch(pt_, ist.get(imp + "->incr_sz", "")) for pt_ in pats) or ist.get(imp + "->obj_sz") != osz:
+    # ... or the remainder form: t if t % p == 0, else t + (p - t % p)   (also written with if / else on a local)
+    rem = r"\(%s %% %s\)" % (tot, page)
+    pats.append(r"\(\(%s == 0\) \? %s : \(%s \+ \(%s - %s\)\)\)" % (rem, tot, tot, page, rem))
+    pats.append(r"\(\(%s != 0\) \? \(%s \+ \(%s - %s\)\) : %s\)" % (rem, tot, page, rem, tot))
+    szforms = [ist.get(imp + "->incr_sz", "")]
+    for l_, r_, k_, n_ in inv.stores(ini):
+        if r_ is not None and ix.canon(l_) == imp + "->incr_sz":
+            t_ = common.as_ternary(ix, ini, r_)
+            if t_:
+                szforms.append(t_)
+    if not any(re.fullmatch(pt_, sf_) for pt_ in pats for sf_ in szforms) or ist.get(imp + "->obj_sz") != osz:
         rep.finding(r2, ini.name, "chunk:rounding", "incr_sz = %s is not obj_num * obj_sz rounded up to whole pages"
                     % ist.get(imp + "->incr_sz"), where=m.rel(ini.where))
         r2.fail()
@@ -266,7 +276,13 @@ def rules(rep, m):
         if x["kind"] == "IfStmt" and "CMI_THREAD_STATIC" in render(kids(x)[0]) or \
                 (x["kind"] == "IfStmt" and re.search(r"cookie == \d+", ex_x.canon(kids(x)[0]))):
             names = [callee_ref(y) for y in walk(kids(x)[1]) if y["kind"] == "CallExpr"]
-            if "cmi_slist_push" in names and "cmi_mempool_initialize" in names:
+            # the push onto the registry list may be written out: N->next = L.next; L.next = N
+            sts_ = [(ex_x.canon(l_), ex_x.canon(r_)) for l_, r_, k_, n_ in inv.stores(ex)
+                    if r_ is not None and k_ == "=" and any(y is n_ for y in walk(kids(x)[1]))]
+            open_push = any(l1.endswith(".next") and r1 == "&" + l0[:-len(".next")] and (l0, l1) in sts_ and
+                            sts_.index((l0, l1)) < sts_.index((l1, r1))
+                            for l1, r1 in sts_ for l0, _r0 in sts_ if l0.endswith(".next") and l0 != l1)
+            if ("cmi_slist_push" in names or open_push) and "cmi_mempool_initialize" in names:
                 ic = [y for y in walk(kids(x)[1]) if y["kind"] == "CallExpr" and callee_ref(y) == "cmi_mempool_initialize"][0]
                 ia = [ex_x.canon(z) for z in kids(ic)[1:]]
                 if ia == [mp, mp + "->obj_sz", mp + "->incr_num"] and \
@@ -431,7 +447,8 @@ def rules(rep, m):
     chunk_list_bounds(rep, r5, m)
     lenst = ist.get(imp + "->chunk_list_len")
     lal = ist.get(imp + "->chunk_list")
-    if not (lal and re.fullmatch(r"cmi_malloc\(\(%s->chunk_list_len \* sizeof\(void \*\)\)\)" % imp, lal)):
+    if not (lal and re.fullmatch(r"cmi_malloc\(\((%s->chunk_list_len|%s) \* sizeof\(void \*\)\)\)" %
+                         (imp, re.escape(lenst or "?")), lal)):
         rep.finding(r5, ini.name, "chunk-list:alloc", "the chunk list is allocated as %s" % lal, where=m.rel(ini.where))
         r5.fail()
     else:
@@ -450,6 +467,10 @@ def rules(rep, m):
             if a0["kind"] == "ArraySubscriptExpr":
                 ix = strip(kids(a0)[1], casts=True)
                 okt = tx.canon(kids(a0)[0]) == tmp_ + "->chunk_list" and ix["kind"] == "DeclRefExpr" and ivs.get(ix["ref"]["name"]) == ("0", 1)
+                if not okt and tx.canon(kids(a0)[0]) == tmp_ + "->chunk_list" and gd is not None:
+                    # count-down `for (j = N; j > 0; j--)` freeing element N - j: 0 .. N-1 again
+                    e_, d_ = ivs.get(gd[0], (None, None))
+                    okt = d_ == -1 and tx.canon(ix) == "(%s - %s)" % (e_, gd[0]) and (gd[1], gd[2]) in ((">", "0"), ("!=", "0"), (">=", "1"))
             elif a0["kind"] == "UnaryOperator" and a0.get("opcode") == "*":
                 q = strip(kids(a0)[0], casts=True)
                 okt = q["kind"] == "DeclRefExpr" and ivs.get(q["ref"]["name"]) == (tmp_ + "->chunk_list", 1)
